@@ -88,6 +88,46 @@ def _call_args(case, conv):
     return out, kw
 
 
+def _call_form(case, form, tag):
+    """one spelling of the case's call -> rows (label, 'at-t' | 'at-tinit' | expected frame, observed)"""
+    import numpy as np
+    import sympy
+    fn = _fn(case["in"]["fn"])
+    sig = case["in"]["sig"]
+    a = {n: terms.to_fraction(case["in"]["args"][n]) for n in sig}
+    tq = terms.to_fraction(case["in"]["t"])
+    bkw = _backend_kw(tag)
+    num = float
+    if form == "native-ints":
+        num = lambda q: int(q) if q.denominator == 1 else float(q)  # noqa: E731
+    if form == "symbolic-args":
+        syms = {n: sympy.Symbol(n, positive=True) for n in sig}
+        ts = sympy.Symbol("t", positive=True)
+        pos = [syms[n] for n in sig if n not in case["in"]["defaulted"]]
+        kw = {n: syms[n] for n in sig if n in case["in"]["defaulted"]}
+        kw.update(bkw)
+        out = _as_tuple(fn(ts, *pos, **kw))
+        sub = {syms[n]: sympy.Rational(a[n].numerator, a[n].denominator) for n in sig}
+        sub[ts] = sympy.Rational(tq.numerator, tq.denominator)
+        return [("t", "at-t", tuple(complex(sympy.N(sympy.sympify(e).subs(sub), 30)) for e in out))]
+    if form == "keyword":
+        kw = {n: num(a[n]) for n in sig}
+        kw.update(bkw)
+        return [("t", "at-t", _as_tuple(fn(t=num(tq), **kw)))]
+    names = [n for n in sig if not (form == "implicit-defaults" and n in case["in"]["defaulted"])]
+    pos = [num(a[n]) for n in names if n not in case["in"]["defaulted"]]
+    kw = {n: num(a[n]) for n in names if n in case["in"]["defaulted"]}
+    kw.update(bkw)
+    if form == "array-t":
+        tarr = np.array([float(terms.to_fraction(x)) for x in case["in"]["tarray"]])
+        before = tarr.tolist()
+        out = _as_tuple(fn(tarr, *pos, **kw))
+        cols = [np.broadcast_to(np.asarray(o), tarr.shape) for o in out]
+        return [("t", "at-t", tuple(col[0] for col in cols)), ("tinit", "at-tinit", tuple(col[1] for col in cols)),
+                ("frame", before, tarr.tolist())]
+    return [("t", "at-t", _as_tuple(fn(num(tq), *pos, **kw)))]
+
+
 def _mp(x):
     """sympy number -> mpmath mpc with DPS digits (structural conversion)"""
     import mpmath
@@ -170,31 +210,39 @@ def check_group(group):
                             {"observed": {"dfdt": str(derivs[i]), "f": str(vals[i]), "residual": str(res)},
                              "expected": {"rhs": str(rhs), "rhs_term": terms.term_str(exp["rhs"][i])},
                              "at_t": str(tq)}))
-    # evaluation under each advertised backend
+    # evaluation under each advertised backend, in every call form the case lists
+    init_f = [float(terms.to_fraction(q)) for q in exp["init"]]
     for c in group:
         tag = c["in"]["backend"]
-        fn = _fn(fnname)
-        args, kw = _call_args(c, float)
-        kw.update(_backend_kw(tag))
         rt_b = float(Fraction(c["exp"]["rtol_backend"]))
-        try:
-            import warnings
-            with warnings.catch_warnings():
-                warnings.simplefilter("ignore")
-                out = _as_tuple(fn(float(tq), *args, **kw))
-            obs = [complex(v) for v in out]
-        except Exception as e:  # projection: exception -> class name
-            bad.append((c, {"clause": "raises", "exc": type(e).__name__},
-                        {"observed": {"raised": type(e).__name__, "msg": str(e)[:200]},
-                         "expected": {"raises": False}}))
-            continue
-        for i in range(min(ncomp, len(obs))):
-            o = obs[i]
-            tol = rt_b * max(abs(complex(vals[i])), scale)
-            kind = "nan" if (o != o) else ("complex" if abs(o.imag) > tol else "number")
-            if kind != "number" or not abs(o.real - float(vals[i].real)) <= tol:
-                bad.append((c, {"clause": "value", "observed_kind": kind, "component": c["exp"]["ret"][i]},
-                            {"observed": repr(out[i]), "expected": str(vals[i].real), "rtol": rt_b}))
+        for form in sorted(c["in"]["callforms"]):
+            try:
+                import warnings
+                with warnings.catch_warnings():
+                    warnings.simplefilter("ignore")
+                    rows = _call_form(c, form, tag)      # list of (label, expected list, observed tuple)
+            except Exception as e:  # projection: exception -> class name
+                bad.append((c, {"clause": "raises", "exc": type(e).__name__, "form": form},
+                            {"observed": {"raised": type(e).__name__, "msg": str(e)[:200]},
+                             "expected": {"raises": False}}))
+                continue
+            for label, want, out in rows:
+                if label == "frame":
+                    if want != out:
+                        bad.append((c, {"clause": "frame", "form": form},
+                                    {"observed": out, "expected": want}))
+                    continue
+                refs = vals if want == "at-t" else init_f
+                obs = [complex(v) for v in out]
+                for i in range(min(ncomp, len(obs))):
+                    o = obs[i]
+                    r = complex(refs[i])
+                    tol = rt_b * max(abs(r), scale)
+                    kind = "nan" if (o != o) else ("complex" if abs(o.imag) > tol else "number")
+                    if kind != "number" or not abs(o.real - r.real) <= tol:
+                        bad.append((c, {"clause": "value", "observed_kind": kind, "component": c["exp"]["ret"][i],
+                                        "form": form, "at": label},
+                                    {"observed": repr(out[i]), "expected": str(r.real), "rtol": rt_b}))
     return bad, ref
 
 
